@@ -518,3 +518,99 @@ pub fn c02_after_commit_built(w: &mut World, p: usize, g: usize, id: u64, events
 
 #[allow(dead_code)]
 fn _unused(_: Option<Box<dyn CryptoProvider<CipherSuiteProvider = crate::crypto::SimSuite>>>) {}
+
+// ---------------------------------------------------------------------------------------------
+// C09 / C06: stored state written by an older version of the library
+
+/// The repository ships a group state stored by an older version (`test_data/legacy_snapshot.mls`) that still
+/// holds a pending commit in the old format. A member that comes back from such storage and applies that commit
+/// (`apply_pending_commit_backwards_compatible`) must end up with exactly the private keys of its new tree.
+pub fn legacy_snapshot_case(w: &mut World) -> VResult<()> {
+    if !w.cfg.oracle("private-keys") || w.seed % 8 != 0 || w.parties.is_empty() {
+        return Ok(());
+    }
+    let dir = std::env::var("VERIF_REPO").unwrap_or_else(|_| "/repo".into());
+    let Ok(bytes) = std::fs::read(format!("{dir}/mls-rs/test_data/legacy_snapshot.mls")) else {
+        return Ok(());
+    };
+    use mls_rs::GroupStateStorage;
+    let mut storage = mls_rs::storage_provider::in_memory::InMemoryGroupStateStorage::new();
+    let state = mls_rs_core::group::GroupState {
+        id: b"group".to_vec(),
+        data: bytes.into(),
+    };
+    if GroupStateStorage::write(&mut storage, state, vec![], vec![]).is_err() {
+        return Ok(());
+    }
+    let client = mls_rs::Client::builder()
+        .crypto_provider(w.parties[0].crypto.clone())
+        .identity_provider(mls_rs::identity::basic::BasicIdentityProvider::new())
+        .group_state_storage(storage)
+        .build();
+    let prop = w.cfg.property.clone();
+    let loaded = guarded(&prop, "load_group(legacy snapshot)", || client.load_group(b"group"))?;
+    let Ok(mut group) = loaded else {
+        w.stats.probe("legacy-snapshot-not-loadable-with-this-provider");
+        return Ok(());
+    };
+    if !group.has_pending_commit() {
+        return Ok(());
+    }
+    let before = group.current_epoch();
+    let r = guarded(&prop, "apply_pending_commit_backwards_compatible(legacy snapshot)", || {
+        group.apply_pending_commit_backwards_compatible()
+    })?;
+    w.stats.check("legacy-pending-commit-applied");
+    if let Err(e) = r {
+        return Err(viol(
+            w,
+            "legacy-stored-state",
+            format!("legacy-pending-commit-refused:{}", err_class(&e)),
+            format!("the pending commit of the stored state written by an older version could not be applied: {e:?}"),
+        ));
+    }
+    if group.current_epoch() != before + 1 {
+        return Err(viol(w, "legacy-stored-state", "legacy-pending-commit-epoch".into(), format!("applying the legacy pending commit moved the group from epoch {before} to {}", group.current_epoch())));
+    }
+    // the keys it now stores are those of its new tree
+    let tree_bytes = group.export_tree().to_bytes().unwrap_or_default();
+    let Ok(tree) = Tree::parse(&tree_bytes) else { return Ok(()) };
+    let (leaf, keys) = group.verif_private_keys();
+    let Some(csp) = w.parties[0].crypto.cipher_suite_provider(group.cipher_suite()) else { return Ok(()) };
+    let path = tree.direct_copath(leaf);
+    for (pos, key) in keys.iter().enumerate() {
+        let node_idx = if pos == 0 {
+            2 * leaf
+        } else {
+            match path.get(pos - 1) {
+                Some(((lo, hi), _)) => Tree::idx(*lo, *hi),
+                None => continue,
+            }
+        };
+        match (key, tree.key_of(node_idx)) {
+            (Some(sk), Some(pk)) => {
+                let pk: mls_rs::crypto::HpkePublicKey = pk.into();
+                let sk: mls_rs::crypto::HpkeSecretKey = sk.clone().into();
+                let ok = match csp.hpke_seal(&pk, b"mlsim c09", None, b"probe") {
+                    Ok(ct) => matches!(csp.hpke_open(&ct, &sk, &pk, b"mlsim c09", None), Ok(pt) if &pt[..] == b"probe"),
+                    Err(_) => false,
+                };
+                w.stats.check("legacy-pending-commit-private-key-opens-node-key");
+                if !ok {
+                    return Err(viol(
+                        w,
+                        "private-keys-match-tree",
+                        "key-does-not-match-node:legacy-pending-commit".into(),
+                        format!("after applying the pending commit of a state stored by an older version, the private key at direct-path position {pos} does not open what is sealed to the public key of node {node_idx}"),
+                    ));
+                }
+            }
+            (Some(_), None) => {
+                return Err(viol(w, "private-keys-match-tree", "key-for-blank-node:legacy-pending-commit".into(), format!("after applying the legacy pending commit a private key is stored for blank node {node_idx}")));
+            }
+            _ => {}
+        }
+    }
+    w.stats.probe("legacy-stored-state-case");
+    Ok(())
+}
